@@ -178,7 +178,7 @@ def run_c10(tier, args):
     cov = dict(
         evaluations=ops + sum(v for k, v in total.counters.items() if k.startswith("dynarr.op.") and not k.endswith("skipped")),
         distinct_nontrivial=len(total.tuples),
-        rule="wire half: for a seeded well-formed frame (optionally with extended blocks) every truncation n in [0,N] x every catalogue op reachable for its shape (field get/set/by-tag incl. composite members and arrays, group size/header/resize/clear/fill/iterate/[]/front/back, data size/read/[]/front/back/resize/push_back/assign_string/clear, size_bytes of every level, get_header/fill_message_header, full cursor traversal + size_bytes(m,c), full-depth visit), each on a fresh copy of the bytes placed so that byte n is a guard page, canaries before p; dynarr half: seeded histories on dynamic_array_ref with capacity below what an op needs and corrupted length prefixes. Outcome must be completed or handler; a guard-page hit is re-run with accessible slack to tell a late check (handler fires after the access; counted, not a violation of the literal statement) from a silent out-of-bounds access; converse: handler must not fire when n covers the op's conservative extent (DESIGN appendix D). distinct = distinct (build, schema, target kind/op, outcome, fits|cut) tuples",
+        rule="wire half: for a seeded well-formed frame (optionally with extended blocks) every truncation n in [0,N] x every catalogue op reachable for its shape (field get/set/by-tag incl. composite members; arrays: data/[]/front/back/strlen/strlen_r/fill/assign_string/assign/assign_range/iterate/reverse iterate/raw(); groups: view/size/empty/get_header and its members/resize/clear/fill_group_header/size_bytes/iterate/iterator arithmetic/[]/front/back; every op of the first and last entry of a flat group again through *(begin()+i), *(end()-k), back(), front(), ++ steps, end()[-k]; data: view/size/read/[]/front/back/resize/push_back/assign_string/clear/size_bytes; size_bytes and visit_children of every level; get_header and its members, fill_message_header; seven scripted cursor traversals through every wrapper kind incl. cursor setters and subranges, + size_bytes(m,c); full-depth visit); a quarter of the frames additionally carry 1-2 corrupted structural fields or flipped bytes (then only the safety half applies), each on a fresh copy of the bytes placed so that byte n is a guard page, canaries before p; dynarr half: seeded histories on dynamic_array_ref with capacity below what an op needs and corrupted length prefixes. Outcome must be completed or handler; a guard-page hit is re-run with accessible slack to tell a late check (handler fires after the access; counted, not a violation of the literal statement) from a silent out-of-bounds access; converse: handler must not fire when n covers the op's conservative extent (DESIGN appendix D). distinct = distinct (build, schema, target kind/op, outcome, fits|cut) tuples",
         samples=total.samples[:5],
         frames=total.runs,
         op_executions=ops,
@@ -193,7 +193,7 @@ def run_c10(tier, args):
         worker_deaths=total.worker_deaths,
     )
     write_evidence("C10", tier, base_seed(), "fault_enumeration", cov, wall, nviol,
-                   ["guard pages cannot see reads that stay inside [p,p+n) nor pointer wrap-around", "converse extents are conservative: navigation to an entry may check the whole entry block, group iteration the whole group", "a check placed after the access satisfies the literal statement (handler is invoked) and is only counted"])
+                   ["guard pages cannot see reads that stay inside [p,p+n) nor pointer wrap-around", "converse extents are conservative: navigation to an entry may check the whole entry block, group iteration the whole group", "a check placed after the access satisfies the literal statement (handler is invoked in the same accessor call) and is only counted", "accesses below p are outside the statement (it speaks of bytes at or beyond p+n) and are only counted: with hostile 64-bit structural values derived pointers wrap around and land before the buffer"])
     return 2 if herr else (1 if nviol else 0)
 
 
@@ -255,14 +255,14 @@ def run_c04(tier, args):
 def run_c19(tier, args):
     q = tier == "quick"
     return _run_simple("C19", tier, {"checked": 40000 if q else 400000, "unchecked": 40000 if q else 400000, "checked_clang20": 60000, "unchecked_clang20": 60000}, "fault_enumeration",
-                       "per seeded frame: (a) one complete full-depth visit whose event sequence (callback kind, tag, view position) must equal the schema-order sequence of the model and whose delivered values must equal the named accessor's; cursor must end at the message end; (b) for EVERY k from 1 to the number of stoppable callbacks the same visit with the k-th callback returning true: exactly the first events up to that callback, identical to the complete visit's prefix, nothing after (incl. stops inside nested group entries and composites); (c) for every field / composite member: get_by_tag == named getter, set_by_tag writes the same bytes as the named setter; enum values yield their value tag or unknown_enum_value_tag, sets every choice with its bit. evaluations = visits executed (complete + cancelled). distinct = distinct (build, schema, callback kind) tuples",
+                       "per seeded frame: (a) one complete full-depth visit whose event sequence (callback kind, tag, view position) must equal the schema-order sequence of the model and whose delivered values must equal the named accessor's; cursor must end at the message end; (b) for EVERY k from 1 to the number of stoppable callbacks the same visit with the k-th callback returning true: exactly the first events up to that callback, identical to the complete visit's prefix, nothing after (incl. stops inside nested group entries and composites); (c) for every field / composite member: get_by_tag == named getter, set_by_tag writes the same bytes as the named setter; enum values yield their value tag or unknown_enum_value_tag, sets every choice with its bit; (d) three scripted cursor walks (plain, seeded wrapper mix with setters and subranges, init/dont_move) through the named cursor accessors and through get_by_tag/set_by_tag(view, ..., cursor) must be identical call by call. evaluations = visits executed (complete + cancelled). distinct = distinct (build, schema, callback kind) tuples",
                        {"exhaustive_over_cancellation_points_per_frame": True}, ["event grammar of DESIGN.md appendix E (from doc/visit_api.md)", "frames are well-formed; truncated visits belong to C10"], "fault.fired.cancel_at_callback")
 
 
 def run_c03(tier, args):
     q = tier == "quick"
     return _run_simple("C03", tier, {"checked": 60000 if q else 800000, "unchecked": 60000 if q else 800000, "unchecked_O0": 20000 if q else 200000, "checked_clang20": 100000, "unchecked_clang20": 100000}, "exploration",
-                       "one evaluation = one accessor result checked on a frame produced by the independent reference encoder with wire block lengths larger than the compiled ones (root and every group level independently, +1..+21 bytes of filler): every field of every level instance by random access (value == wire bytes at the model offset, views at the model position), every group (position, size, size_bytes, entry positions by iteration and operator[]), every data member (position, size, content), size_bytes of every level, size_bytes_checked, a full cursor traversal (every position and value, end == wire size) and a full visit (structure and positions, end == wire size). distinct = distinct (build, schema, message, root extension) tuples. No fault is involved: the configuration axis is the producing peer's schema version (degenerate use of the method, DESIGN 1).",
+                       "one evaluation = one accessor result checked on a frame produced by the independent reference encoder with wire block lengths larger than the compiled ones (root and every group level independently, +1..+21 bytes of filler): every field of every level instance by random access (value == wire bytes at the model offset, views at the model position), every group (position, size, size_bytes, entry positions by iteration and operator[]), every data member (position, size, content), size_bytes of every level, size_bytes_checked, seven cursor traversals (plain and through every wrapper kind, subranges; every position, value and view address, end == wire size) and a full visit (structure and positions, end == wire size); flat groups also through iterator arithmetic. Extensions are +1..+21 bytes or up to values around 127/128/255/256/32767/32768 (root: up to 65536). distinct = distinct (build, schema, message, root extension) tuples. No fault is involved: the configuration axis is the producing peer's schema version (degenerate use of the method, DESIGN 1).",
                        {}, ["the layout model of DESIGN.md appendix A", "the extension is filler bytes, not a real v2 encoder (the thorough real-v2 producer of the design was not built)"], "c03.random_access_checks")
 
 
